@@ -32,7 +32,9 @@
  * (1..720 samples x contexts), hist-* (E2 over frame sequences from a 14 letter
  * alphabet of accepted and rejected frames; state = canonical multiplexer state
  * + what the demultiplexer still holds), cor (E1 over coroutine buffer sizes),
- * misc (service id variants, masks, PTS values, PIDs).
+ * misc (service id variants, masks, PTS values, PIDs), lowlevel-sliced /
+ * lowlevel-raw (the public building blocks vbi_dvb_multiplex_sliced / _raw on
+ * a caller buffer of every size of a menu, continued call by call; C06_low.h).
  *
  * Deviations from DESIGN.md C06:
  *  - raw lines: all lengths 1..720 instead of {1,251,252,720} (the interesting
@@ -309,6 +311,89 @@ static void raw_case(uint64_t idx, void *arg)
 }
 
 /* ======================================================================== */
+/* phase lowlevel: vbi_dvb_multiplex_sliced / _raw on a caller buffer (C06_low.h) */
+#include "C06_low.h"
+
+static const uint32_t LOW_MASKS[3] = { ALL_SERVICES, VBI_SLICED_TELETEXT_B, ALL_SERVICES & ~VBI_SLICED_TELETEXT_B };
+#define NLOWX 12
+/* frames the <= 3 line alphabet does not hold: id variants, ids that cannot be encoded, order faults deep in a frame */
+static void lowx_frame(int k, struct h_frame *f)
+{
+        f_reset(f, 0);
+        switch (k) {
+        case 0: f_add(f, VBI_SLICED_TELETEXT_B_L10_625, 7, 1); f_add(f, VBI_SLICED_TELETEXT_B_L25_625, 8, 1); f_add(f, VBI_SLICED_CAPTION_625, 21, 0); break;
+        case 1: f_add(f, VBI_SLICED_TELETEXT_B | VBI_SLICED_VPS, 16, 1); f_add(f, VBI_SLICED_TELETEXT_B, 17, 1); break;
+        case 2: f_add(f, VBI_SLICED_CAPTION_525, 21, 0); f_add(f, VBI_SLICED_TELETEXT_B, 22, 1); break;
+        case 3: f_add(f, VBI_SLICED_NONE, 5, 0); f_add(f, VBI_SLICED_TELETEXT_B, 7, 1); f_add(f, VBI_SLICED_NONE, 0, 0); f_add(f, VBI_SLICED_WSS_625, 23, 0); break;
+        case 4: for (unsigned l = 7; l <= 15; l++) f_add(f, VBI_SLICED_TELETEXT_B, l, 1); f_add(f, VBI_SLICED_TELETEXT_B, 15, 2); f_add(f, VBI_SLICED_TELETEXT_B, 16, 1); break;   /* repeated line deep in the frame */
+        case 5: f_add(f, VBI_SLICED_TELETEXT_B, 320, 1); f_add(f, VBI_SLICED_VPS, 16, 0); f_add(f, VBI_SLICED_TELETEXT_B, 321, 1); break;          /* VPS out of order */
+        case 6: f_add(f, VBI_SLICED_VPS, 16, 0); f_add(f, VBI_SLICED_TELETEXT_B, 0, 1); f_add(f, VBI_SLICED_TELETEXT_B, 0, 2); f_add(f, VBI_SLICED_TELETEXT_B, 320, 1); f_add(f, VBI_SLICED_TELETEXT_B, 0, 3); break;
+        case 7: f_add(f, VBI_SLICED_WSS_CPR1204, 20, 0); f_add(f, VBI_SLICED_VPS_F2, 329, 0); f_add(f, VBI_SLICED_TELETEXT_B, 330, 1); break;
+        case 8: f_add(f, VBI_SLICED_TELETEXT_B, 6, 1); f_add(f, VBI_SLICED_TELETEXT_B, 23, 1); f_add(f, VBI_SLICED_TELETEXT_B, 319, 1); f_add(f, VBI_SLICED_TELETEXT_B, 336, 1); f_add(f, VBI_SLICED_TELETEXT_B, 335, 1); break;
+        case 9: f_add(f, VBI_SLICED_CAPTION_625_F1, 22, 0); f_add(f, VBI_SLICED_CAPTION_625_F2, 335, 0); break;
+        case 10: f_add(f, VBI_SLICED_WSS_625, 23, 0); f_add(f, VBI_SLICED_WSS_625, 23, 1); break;
+        case 11: f_add(f, VBI_SLICED_VBI_625, 10, 0); f_add(f, VBI_SLICED_TELETEXT_B, 11, 1); break;                                            /* raw entry: not a sliced service */
+        }
+}
+#define NLOWSLICED (NFRAMES3 + NDW + NLOWX)
+static void lowsliced_case(uint64_t idx, void *arg)
+{
+        struct h_frame f; int rich;
+        if (idx < NFRAMES3) { frame3_of(idx, &f); rich = f.n <= 2; }
+        else if (idx < (uint64_t) NFRAMES3 + NDW) {
+                struct h_frame b; const struct dense_win *w = &DW[idx - NFRAMES3];
+                dense_base(w->which, &b); f_reset(&f, 0);
+                for (int i = w->lo; i < w->hi; i++) f.l[f.n++] = b.l[i];
+                rich = w->lo == 0 || w->hi == b.n;
+        } else { lowx_frame(idx - NFRAMES3 - NDW, &f); rich = 1; }
+        p_key_prefix = "low-level API: ";
+        uint64_t ev = 0; unsigned sz[64];
+        for (int d = 0; d < 4 && !h_bad; d++) {
+                if (!full_tier() && d >= 2) break;
+                int fixed = LOW_DIDS[d] >= 0x10 && LOW_DIDS[d] <= 0x1F;
+                uint64_t nsz = low_sizes(fixed, sz);
+                for (int m = 0; m < 3 && !h_bad; m++) {
+                        if (m && !rich && !full_tier()) break;
+                        f.mask = LOW_MASKS[m];
+                        for (int st = 0; st < 2 && !h_bad; st++)
+                                for (uint64_t k = 0; k < nsz && !h_bad; k++) {
+                                        if (!rich && !full_tier() && !fixed && (k + idx) % 3) continue;     /* quick, inner windows / 3 line frames: every third size, rotating */
+                                        ev += low_sliced(&f, LOW_DIDS[d], st, sz[k]);
+                                }
+                }
+                mc_distinct(mc_hash64(&f, offsetof(struct h_frame, pts)) ^ (LOW_DIDS[d] * 0x9E3779B97F4A7C15ull) ^ 0x10E);
+        }
+        p_key_prefix = "";
+        mc_count("evaluations", ev); mc_count("lowlevel_calls", ev);
+        if (idx == (uint64_t) NFRAMES3 + NDW + 4) mc_sample("lowlevel: vbi_dvb_multiplex_sliced on %s, every buffer size of the menu x stuffing x 3 service masks, continued call by call", frame_str(&f));
+}
+static void lowraw_case(uint64_t idx, void *arg)
+{
+        struct low_raw_par r; r.n_total = LOW_RAW_N[idx % NLOW_RAW_N]; r.line = LOW_RAW_L[idx / NLOW_RAW_N].line; r.std = LOW_RAW_L[idx / NLOW_RAW_N].std;
+        p_key_prefix = "low-level API: ";
+        uint64_t ev = 0; unsigned sz[64];
+        for (int o = 0; o < 4 && !h_bad; o++) {
+                /* first_pixel_position: 0, right aligned, middle, and one beyond the right edge (refused) */
+                r.fpp = o == 0 ? 0 : o == 1 ? 720 - r.n_total : o == 2 ? (720 - r.n_total) / 2 : 721 - r.n_total;
+                if ((o == 1 || o == 2) && r.fpp == 0) continue;
+                for (int d = 0; d < 4 && !h_bad; d++) {
+                        if (!full_tier() && d >= 2) break;
+                        int fixed = LOW_DIDS[d] >= 0x10 && LOW_DIDS[d] <= 0x1F;
+                        uint64_t nsz = low_sizes(fixed, sz);
+                        for (int st = 0; st < 2 && !h_bad; st++)
+                                for (uint64_t k = 0; k < nsz && !h_bad; k++) {
+                                        if (!full_tier() && o == 2 && (k + idx) % 3) continue;
+                                        ev += low_raw(&r, LOW_DIDS[d], st, sz[k]);
+                                }
+                        mc_distinct(0xBD000000ull + idx * 64 + o * 4 + d);
+                }
+        }
+        p_key_prefix = "";
+        mc_count("evaluations", ev); mc_count("lowlevel_calls", ev);
+        if (idx == 11) mc_sample("lowlevel: vbi_dvb_multiplex_raw line %u, %u samples, every buffer size of the menu x stuffing x first_pixel_position {0, right, middle, beyond}, continued until the line is complete", r.line, r.n_total);
+}
+
+/* ======================================================================== */
 /* phase hist: E2 over frame sequences                                       */
 
 #define NLETTERS 14
@@ -524,7 +609,7 @@ int main(int argc, char **argv)
         mc_meta("level", "model_checking");
         mc_meta("technique", "bounded-exhaustive frames x configurations through the real multiplexer, independent standards parser + library demultiplexer round trip; E2 over frame sequences with canonical multiplexer/demultiplexer state; E1 over coroutine buffer sizes");
         mc_meta("rule", "a case is one (frame or frame sequence, configuration, interface); distinct counts (frame, data_identifier, PES/TS) resp. merged E2 states; every case reaches generate_pes_packet (accepted or rejected is an outcome)");
-        mc_meta("bound", "frames: all <=3-line frames over lines {0,7,16,21,22,23,320,335} x {ttx,vps,wss,cc}; all windows of the 33/32/35-line frames; raw lines of 1..720 samples x 13 contexts x 3 positions, and x 7 further raw buffer geometries (field counts 16+17, 17+12, 6+17, 17+15 sequential; 17+17, 12+12 interlaced; 16+17 interlaced = invalid) x 6 contexts; configurations 4 data_identifiers x 10 (min,max) pairs of {184,368,1472,65504} x {PES, TS 0010, TS 1FFE} x 5 PTS (3-line frames: one of the 5 PTS per frame and configuration, rotating; quick: 3-line frames at the default size pair only, dense frames PTS rotating, raw at 3 size pairs and 2 data_identifiers); histories of <= %d frames from 14 letters x 24 configurations; coroutine buffer size vectors with <= %d deviations + 10 constant sizes", full_tier() ? 4 : 3, full_tier() ? 4 : 3);
+        mc_meta("bound", "frames: all <=3-line frames over lines {0,7,16,21,22,23,320,335} x {ttx,vps,wss,cc}; all windows of the 33/32/35-line frames; raw lines of 1..720 samples x 13 contexts x 3 positions, and x 7 further raw buffer geometries (field counts 16+17, 17+12, 6+17, 17+15 sequential; 17+17, 12+12 interlaced; 16+17 interlaced = invalid) x 6 contexts; configurations 4 data_identifiers x 10 (min,max) pairs of {184,368,1472,65504} x {PES, TS 0010, TS 1FFE} x 5 PTS (3-line frames: one of the 5 PTS per frame and configuration, rotating; quick: 3-line frames at the default size pair only, dense frames PTS rotating, raw at 3 size pairs and 2 data_identifiers); histories of <= %d frames from 14 letters x 24 configurations; coroutine buffer size vectors with <= %d deviations + 10 constant sizes; low-level functions: all <=3-line frames + dense windows + 12 frames with id variants / unencodable services / order faults x 2 (thorough 4) data_identifiers x 3 service masks x stuffing x 43 buffer sizes 2..516 (6 multiples of 46 + 5 refused sizes for fixed length; sizes 0,1 refused), raw: 23 sample counts x 18 (line, video standard) pairs (10 refused) x 4 first_pixel_positions (1 refused) x the same sizes", full_tier() ? 4 : 3, full_tier() ? 4 : 3);
         mc_meta("assume", "the TS demultiplexer gets a leading stuffing-only TS packet (its loss of a first one-TS-packet PES packet is C07's finding)");
         mc_meta("assume", "raw lines are checked by the parser only: the public demultiplexer does not deliver raw lines");
         mc_meta("assume", "WSS has 14 payload bits: bits 6,7 of the second sliced byte are not compared");
@@ -536,6 +621,8 @@ int main(int argc, char **argv)
         mc_pool("raw", 720, raw_case, NULL, 60);
         mc_pool("raw-align", 15 * 2 * 2 * 2 * 3 * 3, rawalign_case, NULL, 60);
         mc_pool("misc", NCFG, misc_case, NULL, 60);
+        mc_pool("lowlevel-sliced", NLOWSLICED, lowsliced_case, NULL, 60);
+        mc_pool("lowlevel-raw", (uint64_t) NLOW_RAW_N * NLOW_RAW_L, lowraw_case, NULL, 60);
         mc_pool("cor", NCORFRAMES * 12, cor_case, NULL, 120);
 
         static struct hist_arg ha[24]; int nha = 0;
